@@ -22,6 +22,7 @@ import (
 	"os"
 	"strings"
 	"testing"
+	"time"
 
 	cid "github.com/ipfs/go-cid"
 	ipld "github.com/ipfs/go-ipld-format"
@@ -44,6 +45,7 @@ type vC13SCase struct {
 
 const vC13SMaxSize = 600000
 const vC13SDataMax = 1024 // chunks are recorded (and compared byte for byte in Coq) up to this file size
+const vC13SWatchdog = 30 * time.Second // the largest case takes well under a second
 
 func vC13SNormalize(c *vC13SCase) {
 	if c.Layout != "trickle" {
@@ -379,15 +381,30 @@ func TestVerifC13Shape(t *testing.T) {
 		ex := &vC13Expect{tree: tree, topName: "single.dat", topFile: "single.dat"}
 		data := tree.files["single.dat"]
 		ihelper.DefaultLinksPerBlock = c.MaxLinks
-		run := vC13RunFiles(&fc, c.Shard, treeRoot, ex)
-		ihelper.DefaultLinksPerBlock = shipped
-		os.RemoveAll(base)
+		// watchdog: a layout that does not terminate (balanced.Layout with fewer than 2 links per block stacks one-link nodes for
+		// ever) must not hang the run: the case is reported (code 36) and the test ends, which ends the runaway goroutine
+		ch := make(chan *vC13FRun, 1)
+		go func() { ch <- vC13RunFiles(&fc, c.Shard, treeRoot, ex) }()
+		var run *vC13FRun
+		hung := false
+		select {
+		case run = <-ch:
+		case <-time.After(vC13SWatchdog):
+			hung = true
+			run = &vC13FRun{rig: &vC13Rig{}}
+		}
+		if !hung {
+			ihelper.DefaultLinksPerBlock = shipped
+			os.RemoveAll(base)
+		}
 
 		withData := len(data) <= vC13SDataMax
 		var blocks []vC13SBlock
 		var flags []int
 		rootID, rsize := 0, 0
-		if run.err != nil || run.panic_ || run.rec == nil {
+		if hung {
+			flags = append(flags, 36)
+		} else if run.err != nil || run.panic_ || run.rec == nil {
 			flags = append(flags, 35)
 		} else {
 			blocks, rootID, rsize, flags = vC13ShapeOf(run.rec.nodes, run.root, withData)
@@ -431,5 +448,9 @@ func TestVerifC13Shape(t *testing.T) {
 		}
 		out.add(term, c, map[string]interface{}{"blocks": len(blocks), "leaves": nleaves, "inner": ninner, "root": rootID, "rsize": rsize,
 			"flags": flags, "err": fmt.Sprint(run.err)}, ninner >= 1)
+		if hung {
+			out.count("shape:watchdog")
+			break
+		}
 	}
 }
